@@ -107,7 +107,7 @@ func gen(r *lib.Rand, tier, stream string, i int) History {
 	case 1:
 		h.Start = 1 + int64(r.Intn(50)) // tiny timestamps: the divisions barely shrink the digests
 	case 2:
-		h.Start = int64(r.Big(62).Int64()) + 1
+		h.Start = int64(r.Big(37).Int64()) + 1 // up to ~year 6300: protobuf timestamps end with year 9999
 	case 3:
 		h.Start = 1 << 33
 	case 4:
@@ -133,6 +133,8 @@ func gen(r *lib.Rand, tier, stream string, i int) History {
 	}
 	apps := 3 + r.Intn(5)
 	lastApp, lastNanos := 0, int64(0)
+	cur := h.Start
+	const maxSecs = int64(1) << 37 // keeps every block time a valid protobuf timestamp
 	oracleShare := r.Intn(5) // 0: no oracle requests in this history
 	for k := 0; k < n; k++ {
 		switch r.Weighted(10, 6, 4, 1) {
@@ -144,12 +146,14 @@ func gen(r *lib.Rand, tier, stream string, i int) History {
 			case 1:
 				s.N = uint64(4 + r.Intn(8))
 			case 2:
-				s.N = ^uint64(0) - uint64(r.Intn(3)) // h + n wraps around 2^64
+				s.N = uint64(1)<<62 - uint64(r.Intn(3)) // far future, height + interval still below 2^63
 			case 3:
-				s.N = uint64(1)<<63 - uint64(r.Intn(4)) // around the int64 boundary
+				s.N = uint64(1)<<40 + uint64(r.Intn(4))
 			case 4:
-				s.N = uint64(r.Big(64).Uint64())
+				s.N = uint64(r.Big(62).Uint64())
 			}
+			// height + interval >= 2^63 (the int64 addition in RequestRandom wraps) is C13's finding
+			// (fixed there by rejecting such intervals); this generator stays below it.
 			if r.Intn(5) < oracleShare {
 				s.Oracle = true
 				switch r.Weighted(10, 2, 1, 1) {
@@ -180,11 +184,15 @@ func gen(r *lib.Rand, tier, stream string, i int) History {
 			case 1:
 				s.Dt = 0 // same second as the previous block
 			case 2:
-				s.Dt = int64(r.Big(40).Int64())
+				s.Dt = int64(r.Big(36).Int64())
 			}
 			if zeroTime {
 				s.Dt = int64(r.Intn(2))
 			}
+			if cur+s.Dt > maxSecs {
+				s.Dt = int64(r.Intn(3))
+			}
+			cur += s.Dt
 			switch r.Weighted(5, 3) {
 			case 0:
 				s.App = r.Intn(apps)
@@ -196,6 +204,12 @@ func gen(r *lib.Rand, tier, stream string, i int) History {
 				s.Nanos = lastNanos
 			} else if r.Chance(1, 2) {
 				s.Nanos = int64(r.Intn(1000000000))
+			}
+			if zeroTime && s.Nanos == 0 {
+				// RequestService picks the provider with a PRNG seeded by Time.UnixNano(): it divides by
+				// zero at the one instant 1970-01-01T00:00:00.000000000Z; that choice is the service
+				// environment of the model (not modelled), so the stream stays off that instant
+				s.Nanos = 1 + int64(r.Intn(999999999))
 			}
 			lastNanos = s.Nanos
 			h.Steps = append(h.Steps, s)
@@ -213,6 +227,7 @@ func gen(r *lib.Rand, tier, stream string, i int) History {
 		s := Step{Op: "block", Dt: int64(r.Intn(3)), App: r.Intn(apps)}
 		if zeroTime {
 			s.Dt = int64(r.Intn(2))
+			s.Nanos = 1 + int64(r.Intn(999999999))
 		}
 		h.Steps = append(h.Steps, s)
 		if r.Chance(1, 3) {
@@ -541,8 +556,8 @@ func (r *runner) doReq(st Step) {
 		lib.Stat(r.c.Stats, "op:req")
 	}
 	lib.Stat(r.c.Stats, "res:"+o.Kind)
-	if st.N >= 1<<62 {
-		lib.Stat(r.c.Stats, "req:huge-interval")
+	if st.N >= 1<<40 {
+		lib.Stat(r.c.Stats, "req:far-interval")
 	}
 	idHex := ""
 	if ok {
@@ -680,6 +695,9 @@ func (r *runner) doBlock(st Step, secs int64) (int, bool) {
 	// --- begin block ---
 	app := appHash(st.App)
 	tm := time.Unix(secs, st.Nanos).UTC()
+	if tm.UnixNano() == 0 {
+		tm = tm.Add(time.Nanosecond) // see gen: the provider choice of RequestService divides by UnixNano
+	}
 	hdr := tmproto.Header{Height: e.Height + 1, Time: tm, AppHash: app, ChainID: "verif"}
 	t := tm.Unix()
 	for c := 0; c < nConsumers; c++ {
